@@ -2,7 +2,7 @@
 //@ assume: assumed contract: u64::count_ones(x) == pc(x) where pc(n) = n%2 + pc(n/2) (population count; std intrinsic, not verified)
 //@ assume: machine integers are u64 with Verus overflow obligations generated; spec integers are mathematical (nat) and every contract states the u64 range it covers
 //@ assumed_items: 1
-//@ fns: pmmr::n_leaves, pmmr::insertion_to_pmmr_index, pmmr::pmmr_leaf_to_insertion_index, pmmr::round_up_to_leaf_pos, pmmr::family, pmmr::is_left_sibling, pmmr::peak_map_height, pmmr::bintree_postorder_height, pmmr::is_leaf, pmmr::bintree_rightmost, pmmr::bintree_leftmost, pmmr::bintree_range
+//@ fns: pmmr::family_branch, pmmr::n_leaves, pmmr::insertion_to_pmmr_index, pmmr::pmmr_leaf_to_insertion_index, pmmr::round_up_to_leaf_pos, pmmr::family, pmmr::is_left_sibling, pmmr::peak_map_height, pmmr::bintree_postorder_height, pmmr::is_leaf, pmmr::bintree_rightmost, pmmr::bintree_leftmost, pmmr::bintree_range
 //@ import: use vstd::arithmetic::power2::*;
 //@ import: use vstd::bits::*;
 //@ import: use vstd::std_specs::bits::*;
@@ -792,6 +792,174 @@ proof fn lemma_bit_test(m: u64, h: u64)
 //@+    }
 //@ end
 //@ canary family: r.0 == r.1
+
+// ---------------------------------------------------------------------------------------------
+// the peak map of a position also encodes the left/right turns of all its ancestors
+proof fn lemma_bit_high_zero(m: nat, k: nat, t: nat)
+    requires m < pow2(k), t >= k
+    ensures !bit(m, t)
+{
+    lemma_pow2_pos(t); lemma_pow2_pos(k);
+    if t > k { lemma_pow2_strictly_increases(k, t); }
+    assert(m / pow2(t) == 0) by(nonlinear_arith) requires m < pow2(t), pow2(t) > 0;
+}
+
+proof fn lemma_bit_top(m: nat, k: nat)
+    requires m < pow2(k)
+    ensures bit(pow2(k) + m, k)
+{
+    lemma_pow2_pos(k);
+    let a = pow2(k);
+    assert((a + m) / a == 1) by(nonlinear_arith) requires m < a, a > 0;
+}
+
+// parent of pos (non-root in the j-tree): the two peak maps agree on every bit at or above the parent's height
+proof fn lemma_parent_bits(pos: nat, j: nat, t: nat)
+    requires j > 0, pos < tsize(j) - 1, t >= ht(pos, j) + 1
+    ensures bit(loop_map(pos, j), t) == bit(loop_map(parent(pos, j), j), t)
+    decreases j
+{
+    lemma_psize(j); lemma_psize((j - 1) as nat); lemma2_to64();
+    lemma_pow2_unfold(j); lemma_pow2_pos((j - 1) as nat);
+    let ts = tsize((j - 1) as nat);
+    lemma_family(pos, j);
+    if pos == ts - 1 {
+        // left child of the root: maps 2^(j-1)-1 and 2^j-1, heights j-1 and j: bits >= j are 0 in both
+        lemma_bmap((j - 1) as nat, 0);
+        lemma_bmap(j, 0);
+        lemma_ht_root(pos, (j - 1) as nat);
+        assert(loop_map(pos, j) == loop_map(pos, (j - 1) as nat));
+        lemma_bit_high_zero((pow2((j - 1) as nat) - 1) as nat, j, t);
+        lemma_pow2_strictly_increases((j - 1) as nat, j);
+        lemma_bit_high_zero((pow2(j) - 1) as nat, j, t);
+    } else if pos == tsize(j) - 2 {
+        // right child of the root: both maps are 2^j - 1
+        lemma_bmap((j - 1) as nat, 0);
+        lemma_bmap(j, 0);
+        assert(loop_map(pos, j) == pow2((j - 1) as nat) + loop_map((pos - ts) as nat, (j - 1) as nat));
+    } else if pos < ts {
+        assert(j - 1 > 0) by { if j == 1 { assert(ts == 1); } }
+        lemma_parent_bits(pos, (j - 1) as nat, t);
+        lemma_family(pos, (j - 1) as nat);
+        // parent stays inside the left subtree
+        assert(parent(pos, j) == parent(pos, (j - 1) as nat));
+        assert(parent(pos, j) < ts);
+    } else {
+        let p = (pos - ts) as nat;
+        assert(j - 1 > 0) by { if j == 1 { assert(ts == 1); } }
+        lemma_parent_bits(p, (j - 1) as nat, t);
+        lemma_family(p, (j - 1) as nat);
+        let q = parent(p, (j - 1) as nat);
+        assert(parent(pos, j) == ts + q);
+        lemma_m1(p, (j - 1) as nat);
+        lemma_m1(q, (j - 1) as nat);
+        let mp = loop_map(p, (j - 1) as nat);
+        let mq = loop_map(q, (j - 1) as nat);
+        // q is not the root of the right subtree unless ... handled: parent(pos,j) < tsize(j)-1 here
+        assert(loop_map(pos, j) == pow2((j - 1) as nat) + mp);
+        assert(ts + q < tsize(j) - 1);
+        assert(loop_map((ts + q) as nat, j) == pow2((j - 1) as nat) + mq);
+        if t < j - 1 {
+            lemma_bit_add_high(mp, t, (j - 1) as nat);
+            lemma_bit_add_high(mq, t, (j - 1) as nat);
+        } else if t == j - 1 {
+            lemma_bit_top(mp, (j - 1) as nat);
+            lemma_bit_top(mq, (j - 1) as nat);
+        } else {
+            lemma_bit_high_zero((pow2((j - 1) as nat) + mp) as nat, j, t);
+            lemma_bit_high_zero((pow2((j - 1) as nat) + mq) as nat, j, t);
+        }
+    }
+}
+
+pub open spec fn anc(pos: nat, k: nat) -> nat
+    decreases k
+{ if k == 0 { pos } else { parent(anc(pos, (k - 1) as nat), 64) } }
+
+proof fn lemma_anc_facts(pos: nat, k: nat)
+    requires forall|i: nat| i <= k ==> #[trigger] anc(pos, i) < tsize(64) - 1
+    ensures ht(anc(pos, k), 64) == ht(pos, 64) + k,
+            forall|t: nat| t >= ht(pos, 64) + k ==> #[trigger] bit(loop_map(pos, 64), t) == bit(loop_map(anc(pos, k), 64), t),
+    decreases k
+{
+    lemma_psize(64); lemma2_to64();
+    if k > 0 {
+        let a = anc(pos, (k - 1) as nat);
+        assert(a < tsize(64) - 1);
+        assert forall|i: nat| i <= (k - 1) as nat implies #[trigger] anc(pos, i) < tsize(64) - 1 by { }
+        lemma_anc_facts(pos, (k - 1) as nat);
+        lemma_family(a, 64);
+        assert forall|t: nat| t >= ht(pos, 64) + k implies #[trigger] bit(loop_map(pos, 64), t) == bit(loop_map(anc(pos, k), 64), t) by {
+            lemma_parent_bits(a, 64, t);
+        }
+    }
+}
+
+//@ extract core/src/core/pmmr/pmmr.rs :: fn family_branch
+//@   rewrite `let mut branch = vec![];` => `let mut branch: Vec<(u64, u64)> = Vec::new();`
+//@   requires:
+//@+    size < 0x4000_0000_0000_0000u64, pos0 < size,
+//@   ensures:
+//@+    forall|i: int| 0 <= i < r@.len() ==> (#[trigger] r@[i]).0 as nat == anc(pos0 as nat, (i + 1) as nat)
+//@+        && r@[i].1 as nat == crate::sibling(anc(pos0 as nat, i as nat), 64) && r@[i].0 < size,
+//@+    anc(pos0 as nat, (r@.len() + 1) as nat) >= size,
+//@   after `let mut sibling;`:
+//@+    let ghost mut k: nat = 0;
+//@+    proof {
+//@+        lemma2_to64(); lemma_psize(64); lemma_pow2_unfold(65); lemma_pow2_unfold(64); lemma_pow2_unfold(63);
+//@+        lemma_ht_lt(pos0 as nat, 62);
+//@+        lemma_shl2(height);
+//@+        lemma_family(pos0 as nat, 64);
+//@+        lemma_pow2_pos((height + 1) as nat);
+//@+        assert(anc(pos0 as nat, 1) == parent(anc(pos0 as nat, 0), 64));
+//@+    }
+//@   loop 1:
+//@+    invariant_except_break
+//@+        current < size,
+//@+        current as nat == anc(pos0 as nat, k),
+//@+        ht(current as nat, 64) == height + k,
+//@+        anc(pos0 as nat, k + 1) > anc(pos0 as nat, k),
+//@+    invariant
+//@+        size < 0x4000_0000_0000_0000u64,
+//@+        forall|i: nat| i <= k ==> #[trigger] anc(pos0 as nat, i) < size,
+//@+        height + k <= 61,
+//@+        peak as nat == pow2((height + k) as nat),
+//@+        peak_map as nat == loop_map(pos0 as nat, 64),
+//@+        height as nat == ht(pos0 as nat, 64),
+//@+        branch@.len() == k,
+//@+        forall|i: int| 0 <= i < branch@.len() ==> (#[trigger] branch@[i]).0 as nat == anc(pos0 as nat, (i + 1) as nat)
+//@+            && branch@[i].1 as nat == crate::sibling(anc(pos0 as nat, i as nat), 64) && branch@[i].0 < size,
+//@+    ensures
+//@+        anc(pos0 as nat, (branch@.len() + 1) as nat) >= size,
+//@+    decreases size - current
+//@   before `if (peak_map & peak) != 0 {`:
+//@+    proof {
+//@+        lemma2_to64(); lemma_psize(64); lemma_pow2_unfold(65); lemma_pow2_unfold(64); lemma_pow2_unfold(63);
+//@+        let t = (height + k) as nat;
+//@+        assert forall|i: nat| i <= k implies #[trigger] anc(pos0 as nat, i) < tsize(64) - 1 by { }
+//@+        lemma_anc_facts(pos0 as nat, k);
+//@+        lemma_right_bit(current as nat, 64);
+//@+        lemma_family(current as nat, 64);
+//@+        lemma_bit_test(peak_map, t as u64);
+//@+        lemma_shl2(t as u64);
+//@+        lemma_pow2_unfold(t + 1);
+//@+        lemma_pow2_strictly_increases(t + 1, 63);
+//@+        assert(bit(loop_map(pos0 as nat, 64), t) == bit(loop_map(current as nat, 64), t));
+//@+    }
+//@   before `if current >= size {`:
+//@+    proof { assert(current as nat == anc(pos0 as nat, k + 1)); }
+//@   before `branch.push((current, sibling));`:
+//@+    proof {
+//@+        lemma_ht_lt(current as nat, 62);
+//@+        lemma_u64_shl_is_mul(peak, 1);
+//@+        lemma_family(current as nat, 64);
+//@+        lemma_pow2_pos(ht(current as nat, 64) + 1);
+//@+        assert(anc(pos0 as nat, k + 2) == parent(anc(pos0 as nat, k + 1), 64));
+//@+    }
+//@   after `peak <<= 1;`:
+//@+    proof { k = k + 1; }
+//@ end
+//@ canary family_branch: r@.len() == 0
 
 //@ extract core/src/core/pmmr/pmmr.rs :: fn bintree_postorder_height
 //@   ensures:
